@@ -170,9 +170,12 @@ func c10newFix(t *testing.T) *c10fix {
 }
 
 // the named accounts whose balances are printed after every op (order is the protocol)
-var c10names = []string{"b1", "b2", "b3", "b4", "auction", "collector", "owner", "keeper", "initiator", "reserve", "vault", "pool"}
+var c10names = []string{"b1", "b2", "b3", "b4", "auction", "collector", "owner", "keeper", "initiator", "reserve", "vault", "pool", "lendres", "poolin"}
 
 type c10seq struct {
+	poolMod   string // lend: module account of the debt pool
+	poolInMod string // lend, cross-pool borrow: module account of the pool the collateral was lent to
+	transit   string // lend, cross-pool borrow: denom of the bridge asset
 	f     *c10fix
 	ctx   sdk.Context
 	tr    *Trace
@@ -196,7 +199,18 @@ func (s *c10seq) acct(name string) sdk.AccAddress {
 		return s.f.app.AccountKeeper.GetModuleAddress(vaulttypes.ModuleName)
 	case "pool":
 		if s.f.lend {
+			if s.poolMod != "" {
+				return s.f.app.AccountKeeper.GetModuleAddress(s.poolMod)
+			}
 			return s.f.app.AccountKeeper.GetModuleAddress(s.f.poolMod)
+		}
+	case "lendres":
+		if s.f.lend {
+			return s.f.app.AccountKeeper.GetModuleAddress(lendtypes.ModuleName)
+		}
+	case "poolin":
+		if s.f.lend && s.poolInMod != "" {
+			return s.f.app.AccountKeeper.GetModuleAddress(s.poolInMod)
 		}
 	case "owner":
 		if s.f.lend {
@@ -212,13 +226,6 @@ func (s *c10seq) balances() string {
 		a := s.acct(n)
 		c := s.f.app.BankKeeper.GetBalance(s.ctx, a, s.p.coll.denom).Amount
 		d := s.f.app.BankKeeper.GetBalance(s.ctx, a, s.p.debt.denom).Amount
-		if n == "pool" && s.f.lend {
-			// the lending side as a whole: pool account + the lend module's reserve account (the split of the returned
-			// target between pool and reserve is lend-internal bookkeeping, liquidate.go:739-790)
-			r := s.f.app.AccountKeeper.GetModuleAddress(lendtypes.ModuleName)
-			c = c.Add(s.f.app.BankKeeper.GetBalance(s.ctx, r, s.p.coll.denom).Amount)
-			d = d.Add(s.f.app.BankKeeper.GetBalance(s.ctx, r, s.p.debt.denom).Amount)
-		}
 		sb = append(sb, n+":"+c.String()+":"+d.String())
 	}
 	return strings.Join(sb, ",")
@@ -251,7 +258,11 @@ func (s *c10seq) state() string {
 	}
 	supply := s.f.app.BankKeeper.GetSupply(s.ctx, s.p.debt.denom).Amount.String()
 	_, lvFound := s.f.app.NewliqKeeper.GetLockedVault(s.ctx, s.f.appID, s.lvID)
-	return rec + "\t" + s.balances() + "\t" + fmt.Sprintf("net=%s;ext=%s;res=%s;supply=%s;lv=%v;minted=%s", net, ext, res, supply, lvFound, minted)
+	tr := "0:0"
+	if s.transit != "" {
+		tr = s.f.app.BankKeeper.GetBalance(s.ctx, s.acct("pool"), s.transit).Amount.String() + ":" + s.f.app.BankKeeper.GetBalance(s.ctx, s.acct("poolin"), s.transit).Amount.String()
+	}
+	return rec + "\t" + s.balances() + "\t" + fmt.Sprintf("net=%s;ext=%s;res=%s;supply=%s;tr=%s;lv=%v;minted=%s", net, ext, res, supply, tr, lvFound, minted)
 }
 
 // all limit bids of this (debt, collateral) pair in the store's iteration order, grouped by premium
@@ -358,7 +369,10 @@ func c10newLendFix(t *testing.T) *c10fix {
 	deliver(lendtypes.NewMsgFundModuleAccounts(2, a4, u1.String(), sdk.NewCoin("uasset4", sdk.NewInt(10000000000))))
 	deliver(lendtypes.NewMsgBorrow(u1.String(), 1, 1, false, sdk.NewCoin("ucasset1", sdk.NewInt(100000000)), sdk.NewCoin("uasset2", sdk.NewInt(70000000))))
 	deliver(lendtypes.NewMsgBorrow(u2.String(), 3, 1, false, sdk.NewCoin("ucasset1", sdk.NewInt(1000000000)), sdk.NewCoin("uasset2", sdk.NewInt(700000000))))
-	f.pairs = []c10pair{{coll: c10asset{a1, "uasset1", 1000000}, debt: c10asset{a2, "uasset2", 1000000}, extID: 0, cmst: false}}
+	// borrow 3: cross-pool (pair 13: collateral uasset2 lent to pool 1, debt uasset4 from pool 2, bridged over a transit asset)
+	deliver(lendtypes.NewMsgBorrow(u1.String(), 2, 13, false, sdk.NewCoin("ucasset2", sdk.NewInt(100000000)), sdk.NewCoin("uasset4", sdk.NewInt(30000000))))
+	f.pairs = []c10pair{{coll: c10asset{a1, "uasset1", 1000000}, debt: c10asset{a2, "uasset2", 1000000}, extID: 0, cmst: false},
+		{coll: c10asset{a2, "uasset2", 1000000}, debt: c10asset{a4, "uasset4", 1000000}, extID: 0, cmst: false}}
 	return f
 }
 
@@ -437,10 +451,15 @@ func c10start(t *testing.T, f *c10fix, tr *Trace, cfg c10cfg) *c10seq {
 		} else if err := app.NewliqKeeper.Liquidate(ctx); err != nil {
 			return fail("liquidate")
 		}
-	case "lend", "lendkeeper":
-		// advance a little so that interest accrues, then drop the collateral price and liquidate the first borrow
+	case "lend", "lendkeeper", "lendcross":
 		c10setTwa(app, ctx, s.p.coll.id, cfg.dropTo, true)
-		if cfg.kind == "lendkeeper" {
+		if cfg.kind == "lendcross" {
+			// borrow 3 of the fixture: collateral lent to pool 1, debt borrowed from pool 2 over a bridge asset
+			ok, _ := c10deliver(app, ctx, liqV2types.NewMsgLiquidateInternalKeeperRequest(c10addr("keeper"), 1, 3))
+			if !ok {
+				return fail("keeper-liquidate-cross-borrow")
+			}
+		} else if cfg.kind == "lendkeeper" {
 			ok, _ := c10deliver(app, ctx, liqV2types.NewMsgLiquidateInternalKeeperRequest(c10addr("keeper"), 1, 1))
 			if !ok {
 				return fail("keeper-liquidate-borrow")
@@ -466,6 +485,31 @@ func c10start(t *testing.T, f *c10fix, tr *Trace, cfg c10cfg) *c10seq {
 	if !found {
 		return fail("no-locked-vault")
 	}
+	lendExtra := ""
+	if lv.InitiatorType == "lend" {
+		// what the lend module will do with the target at close (liquidate.go:721-813): external values for the model
+		bp, _ := app.LendKeeper.GetBorrow(ctx, lv.OriginalVaultId)
+		lp, _ := app.LendKeeper.GetLendPair(ctx, bp.PairID)
+		inStats, _ := app.LendKeeper.GetAssetRatesParams(ctx, lp.AssetIn)
+		pen := inStats.LiquidationPenalty
+		if lp.IsEModeEnabled {
+			pen = inStats.ELiquidationPenalty
+		}
+		lendPen := sdk.NewDecFromInt(bp.AmountOut.Amount).Mul(pen).TruncateInt()
+		lendInt := sdk.ZeroInt()
+		if trk, found := app.LendKeeper.GetBorrowInterestTracker(ctx, lv.OriginalVaultId); found {
+			lendInt = trk.ReservePoolInterest.TruncateInt()
+		}
+		outPool, _ := app.LendKeeper.GetPool(ctx, lp.AssetOutPoolID)
+		s.poolMod = outPool.ModuleName
+		if bp.BridgedAssetAmount.Amount.IsPositive() {
+			lnd, _ := app.LendKeeper.GetLend(ctx, bp.LendingID)
+			inPool, _ := app.LendKeeper.GetPool(ctx, lnd.PoolID)
+			s.poolInMod = inPool.ModuleName
+			s.transit = bp.BridgedAssetAmount.Denom
+		}
+		lendExtra = fmt.Sprintf(";lendPen=%s;lendInt=%s;bridged=%s", lendPen, lendInt, bp.BridgedAssetAmount.Amount)
+	}
 	isK := "0"
 	if lv.IsInternalKeeper {
 		isK = "1"
@@ -476,7 +520,7 @@ func c10start(t *testing.T, f *c10fix, tr *Trace, cfg c10cfg) *c10seq {
 	}
 	tr.Line("dutch.begin", fmt.Sprintf("kind=%s;decC=%d;decD=%d;target=%s;fee=%s;bonus0=%s;coll0=%s;keeper=%s;incentive=%s;minUsd=%d;T=%d;premium=%s;discount=%s;cmst=%s;twaC=%d",
 		lv.InitiatorType, s.p.coll.dec, s.p.debt.dec, lv.TargetDebt.Amount, lv.FeeToBeCollected, lv.BonusToBeGiven, lv.CollateralToken.Amount, isK, c10raw(c10dec(cfg.incentive)),
-		cfg.minUsd, cfg.T, c10raw(c10dec(cfg.premium)), c10raw(c10dec(cfg.discount)), cm, cfg.dropTo), s.state())
+		cfg.minUsd, cfg.T, c10raw(c10dec(cfg.premium)), c10raw(c10dec(cfg.discount)), cm, cfg.dropTo)+lendExtra, s.state())
 	tr.Count("begin:" + cfg.kind)
 	return s
 }
@@ -1327,6 +1371,9 @@ func (s *c10seqL) stateL() string {
 			c = c.Add(s.f.app.BankKeeper.GetBalance(s.ctx, r, s.p.coll.denom).Amount)
 			d = d.Add(s.f.app.BankKeeper.GetBalance(s.ctx, r, s.p.debt.denom).Amount)
 		}
+		if n == "lendres" || n == "poolin" {
+			c, d = sdk.ZeroInt(), sdk.ZeroInt() // folded into "pool" for this generation
+		}
 		sb = append(sb, n+":"+c.String()+":"+d.String())
 	}
 	return rec + "\t" + strings.Join(sb, ",") + "\t" + fmt.Sprintf("next=%d", s.f.app.AuctionKeeper.GetLendAuctionID(s.ctx))
@@ -1626,13 +1673,24 @@ func TestC10(t *testing.T) {
 	s.bid("b1", sdk.NewInt(53000000))
 	s.tick(20 * time.Minute)
 	s.bid("b2", sdk.NewInt(100000000))
+	lcfg.kind, lcfg.pair, lcfg.amountOut, lcfg.dropTo = "lendcross", 1, sdk.NewInt(30000000), 1400000
+	if s = c10start(t, fl, tr, lcfg); s != nil {
+		s.bid("b1", sdk.NewInt(10000000))
+		s.tick(20 * time.Minute)
+		s.bid("b2", sdk.NewInt(100000000))
+	}
 	nl := scale(80, 3000)
 	for i := 0; i < nl; i++ {
 		cfg := c10genCfg(f, rng)
 		cfg.pair = 0
-		cfg.kind = []string{"lend", "lendkeeper"}[rng.Intn(2)]
+		cfg.kind = []string{"lend", "lendkeeper", "lendcross"}[rng.Intn(3)]
 		cfg.amountIn, cfg.amountOut = sdk.NewInt(100000000), sdk.NewInt(70000000)
 		cfg.dropTo = []uint64{1860000, 1800000, 1700000, 1500000, 1200000, 900000, 400000}[rng.Intn(7)]
+		if cfg.kind == "lendcross" {
+			cfg.pair = 1
+			cfg.amountOut = sdk.NewInt(30000000)
+			cfg.dropTo = []uint64{1500000, 1400000, 1200000, 1000000, 700000, 300000}[rng.Intn(6)]
+		}
 		if cfg.reserve > 1000 {
 			cfg.reserve = 200000000
 		}
